@@ -288,6 +288,16 @@ func c16Trees() []histCase {
 	files["person"] = "<p>{{ p.name }} {{ p.age }} {{ p }}</p>"
 	// a component that takes nothing still shows the data of the render that uses it
 	files["dumps"] = "<d>@dump(items)</d>@dump(name, flag)"
+	// chains of every length 0..9 (what a render does with a parsed chain must not depend on its length)
+	chain := ""
+	for n := 0; n <= 9; n++ {
+		chain += "@if(false)never"
+		for k := 0; k < n; k++ {
+			chain += fmt.Sprintf("@elseif(name == \"no%d\")no", k)
+		}
+		chain += fmt.Sprintf("@else[e%d:{{ name }}]@end", n)
+	}
+	files["chains"] = chain + "@each(i in items)@if(i == 99)x@elseif(i == 98)y@elseif(i == 97)z@elseif(i == 96)w@else({{ i }})@end@end"
 	files["hello"] = "Hello, {{ name }}!"
 	files["greet"] = "<h1>@component(\"hello\");</h1>@each(i in items)@component(\"hello\");@end"
 	d2 := specData(map[string]any{"name": "Other", "items": []int{7}, "flag": false})
@@ -300,6 +310,7 @@ func c16Trees() []histCase {
 		{Kind: "string", Name: "setsT", Data: nil}, {Kind: "string", Name: "readsT", Data: nil}, {Kind: "string", Name: "retypesT", Data: nil},
 		{Kind: "response", Name: "setsT", Data: empty}, {Kind: "response", Name: "readsT", Data: empty}, {Kind: "string", Name: "setsT", Data: d},
 		{Kind: "evalfile", Name: "setsT", Data: nil}, {Kind: "evalstring", Src: "{{ t0 }}", Data: nil},
+		{Kind: "string", Name: "chains", Data: d}, {Kind: "response", Name: "chains", Data: d2},
 		{Kind: "string", Name: "dumps", Data: d}, {Kind: "evalstring", Src: "@dump(items)@dump({a: 1})", Data: d}, {Kind: "response", Name: "dumps", Data: d2},
 		{Kind: "string", Name: "greet", Data: d}, {Kind: "string", Name: "greet", Data: d2}, {Kind: "response", Name: "greet", Data: nil},
 		{Kind: "string", Name: "person", Data: pa}, {Kind: "string", Name: "person", Data: pb}, {Kind: "evalstring", Src: "{{ p.email }}/{{ p.Age }}", Data: pb},
@@ -333,7 +344,7 @@ func c16NonTrivial(cs histCase) bool {
 func TestC16_HistoriesEnum(t *testing.T) {
 	maxLen := harness.Pick(2, 3)
 	c := harness.New(t, "C16", "histories-enum",
-		fmt.Sprintf("every history of length <= %d (2 quick, 3 thorough) over 31 operation instances {String, Response, EvaluateString, EvaluateFile} x {succeeding, failing at run time, not found} on a template directory with layout, component, loops and objects, under up to 6 configurations (debug on/off x no / working / missing / failing custom error page). Each operation's result (output, or error message + line + path, Response body + returned error) must equal the result of the same operation issued first after a fresh load; afterwards all operations still give their baselines, the configuration is unchanged and the caller's data is deep-equal to a copy. Non-trivial: a failing render or failing Response after a string/file evaluation or an error page. Distinct by construction.", maxLen))
+		fmt.Sprintf("every history of length <= %d (2 quick, 3 thorough) over 33 operation instances {String, Response, EvaluateString, EvaluateFile} x {succeeding, failing at run time, not found} on a template directory with layout, component, loops and objects, under up to 6 configurations (debug on/off x no / working / missing / failing custom error page). Each operation's result (output, or error message + line + path, Response body + returned error) must equal the result of the same operation issued first after a fresh load; afterwards all operations still give their baselines, the configuration is unchanged and the caller's data is deep-equal to a copy. Non-trivial: a failing render or failing Response after a string/file evaluation or an error page. Distinct by construction.", maxLen))
 	defer c.Finish()
 	trees := c16Trees()
 	ntrees := len(trees)
@@ -372,7 +383,7 @@ func TestC16_HistoriesEnum(t *testing.T) {
 		}
 		rec(nil)
 	}
-	c.ExhaustivePart(fmt.Sprintf("all histories of length <= %d over 31 operations x %d configurations", maxLen, ntrees))
+	c.ExhaustivePart(fmt.Sprintf("all histories of length <= %d over 33 operations x %d configurations", maxLen, ntrees))
 }
 
 func TestC16_HistoriesRandom(t *testing.T) {
